@@ -170,7 +170,7 @@ def body(chk: check.Check):
     recs = []
     for panel in (False, True):
         for est in (True, False):
-            plans = [(1, (3,) if quick else (1,)), (2, (12, 18) if quick else (2, 3))]
+            plans = [(1, (3,) if quick else (1,)), (2, (16, 24) if quick else (2, 3))]
             if not quick:
                 plans.append((3, (6, 8, 10)))
             for max_ops, thin in plans:
@@ -203,7 +203,7 @@ def body(chk: check.Check):
             if bad:
                 chk.violation(f'audit:{ep}:{bad[:60]}', dict(formula=desc, panel=rec['panel'], entry=ep, valid=rec['valid'], broken=rec['broken'],
                                                              observed=cls, message=msg),
-                              match=dict(kind='tree', entry=ep, observed=cls, valid=rec['valid'], panel=rec['panel'], broken=','.join(sorted(rec['broken'])),
+                              match=dict(kind='tree', entry=ep, observed=cls, valid=rec['valid'], valid_rowwise=rec['valid_rowwise'], valid_no5b=rec['valid_no5b'], panel=rec['panel'], broken=','.join(sorted(rec['broken'])),
                                          root=rec['ops'][-1]['op']))
     chk.extra['operator_slot_fault_triples_covered'] = len(slots)
     # scenarios
